@@ -349,7 +349,11 @@ func (w *wWorld) buildOps(nDIDs, nOps, nClients int) {
 	type did struct {
 		suffix   string
 		upd, rec *workload.Key
+		twin     *did // another DID of the same controller, created under the same keys
 	}
+
+	var mirror *workload.OpSpec // an update to be repeated, unchanged but for the DID, on the twin
+	var mirrorFor *did
 
 	var dids []*did
 
@@ -366,8 +370,25 @@ func (w *wWorld) buildOps(nDIDs, nOps, nClients int) {
 
 		var d *did
 
-		if len(dids) < nDIDs && (len(dids) == 0 || T.Draw(3, "op.newdid") == 0) {
+		if mirror != nil {
+			// the controller applies the same change to the twin: same key, same patches, same next key - with deterministic
+			// (EdDSA) signatures the two requests carry byte-identical signed data and differ in the DID suffix only
+			d = mirrorFor
+			spec = *mirror
+			spec.Suffix = d.suffix
+			d.upd = spec.NextUpdate
+			mirror, mirrorFor = nil, nil
+			w.k.Count("probe:same-update-on-twin-did")
+		} else if len(dids) < nDIDs && (len(dids) == 0 || T.Draw(3, "op.newdid") == 0) {
 			d = &did{upd: kg.New(workload.Ed25519, mark%4 == 0), rec: kg.New(workload.Ed25519, mark%5 == 0)}
+
+			// a twin: a second DID of the same controller under the same (current) keys
+			if len(dids) > 0 && T.Draw(4, "op.twin") == 0 {
+				t := dids[T.Draw(len(dids), "op.twin.of")]
+				if t.twin == nil {
+					d.upd, d.rec, d.twin, t.twin = t.upd, t.rec, t, d
+				}
+			}
 
 			// one controller may hold several DIDs under one recovery key: their recovers / deactivates reveal the same key
 			if len(dids) > 0 && T.Draw(3, "op.sharedrec") == 0 {
@@ -389,6 +410,11 @@ func (w *wWorld) buildOps(nDIDs, nOps, nClients int) {
 				spec.Type = operation.TypeUpdate
 				spec.SignKey = d.upd
 				spec.NextUpdate = kg.New(workload.Ed25519, false)
+
+				if d.twin != nil && d.twin.upd == d.upd && d.twin.suffix != "" {
+					mirrorFor = d.twin
+				}
+
 				d.upd = spec.NextUpdate
 				pds := []workload.PatchDesc{{Kind: workload.AddSvc, IDs: []string{"s1"}, Mark: fmt.Sprintf("m%d", mark)}}
 
@@ -420,6 +446,13 @@ func (w *wWorld) buildOps(nDIDs, nOps, nClients int) {
 					spec.Until = spec.From + int64(1+T.Draw(40, "op.untilv"))
 				}
 			}
+		}
+
+		if mirrorFor != nil && mirror == nil && spec.Type == operation.TypeUpdate && d != mirrorFor {
+			c := spec
+			mirror = &c
+		} else if mirror == nil {
+			mirrorFor = nil
 		}
 
 		req, err := workload.Build(&spec)
